@@ -719,7 +719,7 @@ func (w *leakWorker) opClose(sl *leakSlot, side int) {
 		w.x.hit(w, "close with unread data")
 		o.Note = fmt.Sprintf("%d unread bytes, %d undelivered messages", unread, pend)
 	}
-	if state == uint32(streamHalfClosed) {
+	if state == uint32(streamHalfClosed) || state == 3 {
 		w.x.hit(w, "close of half-closed end")
 	}
 }
